@@ -542,6 +542,29 @@ def run_nested(ctx, variant):
         e3 = P.explore(lambda: other == third)
         R.total("eq.different_child_keys.total_never_raises", e3, (), replay=rp_keys)
         R.ob("eq.different_child_keys.is_False", S.b_not(ret_cond(e3, lambda r: P.truth(r))), replay=rp_keys)
+        # children are matched by NAME: the keyword order in which a nested spec was built is irrelevant, and same-named children that differ make
+        # the specs unequal even if the same child specs occur under swapped names
+        cP = lambda: specs.BoundedArray((2,), jnp.int32, 0, 3, "p")   # (concrete children: a finite special case of the equality law)
+        cQ = lambda: specs.Array((3,), jnp.float32, "q")
+        s_pq = specs.Spec(Inner, "o", p=cP(), q=cQ())
+        s_qp = specs.Spec(Inner, "o", q=cQ(), p=cP())
+        s_swapped = specs.Spec(Inner, "o", q=cP(), p=cQ())
+
+        def rp_order(m):
+            rs = real_specs
+            A = rs.Spec(Inner, "o", p=rs.BoundedArray((2,), jnp.int32, 0, 3, "p"), q=rs.Array((3,), jnp.float32, "q"))
+            B = rs.Spec(Inner, "o", q=rs.Array((3,), jnp.float32, "q"), p=rs.BoundedArray((2,), jnp.int32, 0, 3, "p"))
+            C = rs.Spec(Inner, "o", q=rs.BoundedArray((2,), jnp.int32, 0, 3, "p"), p=rs.Array((3,), jnp.float32, "q"))
+            ab, ac = native(lambda: A == B), native(lambda: A == C)
+            return {"inputs": {"A": "Spec(p=P, q=Q)", "B": "Spec(q=Q, p=P)", "C": "Spec(q=P, p=Q)"}, "native A==B": repr(ab[1]) if ab[0] == "ret" else outcome_kind(ab),
+                    "native A==C": repr(ac[1]) if ac[0] == "ret" else outcome_kind(ac),
+                    "confirmed": ab[0] != "ret" or not bool(ab[1]) or ac[0] != "ret" or bool(ac[1])}
+        eo = P.explore(lambda: s_pq == s_qp)
+        R.total("eq.keyword_order.total_never_raises", eo, (), replay=rp_order)
+        R.ob("eq.keyword_order.same_children_in_another_order_are_equal", ret_cond(eo, lambda r: P.truth(r)), replay=rp_order)
+        es = P.explore(lambda: s_pq == s_swapped)
+        R.total("eq.swapped_children.total_never_raises", es, (), replay=rp_order)
+        R.ob("eq.swapped_children.same_named_children_differ_so_unequal", S.b_not(ret_cond(es, lambda r: P.truth(r))), replay=rp_order)
         # replace(child=...) changes that child only
         newp = specs.Array((5,), jnp.int8, "newp")
         key = "p" if variant == "flat" else "d"
